@@ -68,3 +68,8 @@ package driver
 //@   loop 1 invariant forall j int :: 0 <= j && j < #iter ==> lget(lbs, #range[j]) == lget(set, #range[j])
 //@   loop 1 invariant forall j int :: 0 <= j && j < len(#range) ==> has(set, #range[j])
 //@   loop 1 invariant forall k string :: has(set, k) ==> (exists j int :: 0 <= j && j < len(#range) && #range[j] == k)
+
+//@ func NewErrNoDeployedReleases
+//@   props C01
+//@   ensures result != nil
+//@   marks errIs(result, ErrNoDeployedReleases)
